@@ -40,6 +40,7 @@ import (
 	sdkmath "cosmossdk.io/math"
 	tmdb "github.com/cometbft/cometbft-db"
 	abci "github.com/cometbft/cometbft/abci/types"
+	tmproto "github.com/cometbft/cometbft/proto/tendermint/types"
 	"github.com/cometbft/cometbft/libs/log"
 	"github.com/cosmos/cosmos-sdk/crypto/keys/secp256k1"
 	"github.com/cosmos/cosmos-sdk/testutil/sims"
@@ -78,6 +79,7 @@ type c09Query struct {
 	Kind string `json:"kind"` // see doQuery
 	To   int    `json:"to"`   // recipient account id (0..3) for transferring kinds; sender is always X
 	Amt  int64  `json:"amt"`  // unibi
+	Bn   int    `json:"bn"`   // trace kinds: requested block number = last committed height + bn (1 = the block in progress)
 }
 
 type c09Input struct {
@@ -157,6 +159,7 @@ type world struct {
 	K       gethcommon.Address
 	cosmos  *secp256k1.PrivKey
 	otherDn string
+	proposer []byte
 	O       evmtest.EthPrivKeyAcc // owner of a TestERC20 mapped to a bank denom (only for call_s2b cases)
 	erc20   gethcommon.Address
 }
@@ -181,6 +184,11 @@ func newWorld(t *testing.T, in *c09Input) *world {
 	must := func(err error) {
 		if err != nil {
 			t.Fatal(err)
+		}
+	}
+	if vals := a.StakingKeeper.GetAllValidators(c.Ctx()); len(vals) > 0 {
+		if ca, err := vals[0].GetConsAddr(); err == nil {
+			w.proposer = ca
 		}
 	}
 	must(c.Fund(w.S.NibiruAddr, Unibi(1e15)))
@@ -257,6 +265,11 @@ func assemble(calls []asmCall, revert bool) []byte {
 	// first pass with dummy offsets to learn the code length (all pushes are fixed width)
 	build := func(offs []int) []byte {
 		var b []byte
+		// prologue: store what the tx sees of the block context (COINBASE, TIMESTAMP, NUMBER, PREVRANDAO, GASLIMIT,
+		// CHAINID, BASEFEE) in slots 0..6, so that it is part of the committed state
+		for slot, op := range []byte{0x41, 0x42, 0x43, 0x44, 0x45, 0x46, 0x48} {
+			b = append(b, op, 0x60, byte(slot), 0x55)
+		}
 		for i, cl := range calls {
 			if len(cl.data) > 0 {
 				push2(&b, len(cl.data)) // size
@@ -403,12 +416,22 @@ func (w *world) doQuery(q c09Query) (res string, gas int64) {
 		return w.ethCall("/eth.evm.v1.Query/EstimateGas", w.callArgs(ft, nil, packBankMsgSend(to, "unibi", q.Amt))), 0
 	case "trace_bank": // debug_traceTransaction of a signed bankMsgSend from X
 		msg := w.signedFromX(&ft, nil, packBankMsgSend(to, "unibi", q.Amt))
-		_, err := w.grpc("/eth.evm.v1.Query/TraceTx", &evm.QueryTraceTxRequest{Msg: msg, BlockNumber: w.c.App.LastBlockHeight(),
+		_, err := w.grpc("/eth.evm.v1.Query/TraceTx", &evm.QueryTraceTxRequest{Msg: msg, BlockNumber: w.c.App.LastBlockHeight() + int64(q.Bn),
 			BlockTime: w.c.Time, BlockMaxGas: -1, ChainId: w.c.ChainID.Int64()})
 		if err != nil {
 			return "err", 0
 		}
 		return "ok", 0
+	case "trace_call": // debug_traceCall of a plain value transfer X -> to, at a caller-chosen block number
+		msg := w.signedFromX(&to, unibiWei(q.Amt), nil)
+		_, err := w.grpc("/eth.evm.v1.Query/TraceCall", &evm.QueryTraceTxRequest{Msg: msg, BlockNumber: w.c.App.LastBlockHeight() + int64(q.Bn),
+			BlockTime: w.c.Time, BlockMaxGas: -1, ChainId: w.c.ChainID.Int64()})
+		return errClass(err), 0
+	case "trace_block": // debug_traceBlockByNumber replaying one plain value transfer X -> to
+		msg := w.signedFromX(&to, unibiWei(q.Amt), nil)
+		_, err := w.grpc("/eth.evm.v1.Query/TraceBlock", &evm.QueryTraceBlockRequest{Txs: []*evm.MsgEthereumTx{msg}, BlockNumber: w.c.App.LastBlockHeight() + int64(q.Bn),
+			BlockTime: w.c.Time, BlockMaxGas: -1, ChainId: w.c.ChainID.Int64()})
+		return errClass(err), 0
 	case "sim_evm": // tx simulation of an EVM value transfer X -> to
 		bz, err := w.c.EncodeEth(w.signedFromX(&to, unibiWei(q.Amt), nil))
 		if err != nil {
@@ -510,7 +533,12 @@ func runReplica(t *testing.T, in *c09Input, withQueries bool) runOut {
 		}
 		yields++
 	}
-	c.BeginBlock(5 * time.Second)
+	// the scenario block has a proposer (the genesis validator), its neighbours have none: block-context values
+	// derived from the header differ between the block in progress and the last committed one
+	c.Time = c.Time.Add(5 * time.Second)
+	c.Header = tmproto.Header{Height: c.App.LastBlockHeight() + 1, Time: c.Time, ProposerAddress: w.proposer}
+	c.App.BeginBlock(abci.RequestBeginBlock{Header: c.Header})
+	c.InBlock = true
 	if in.Point == "pre" {
 		inject()
 	}
@@ -623,13 +651,16 @@ func runCase(t *testing.T, in *c09Input) c09Obs {
 
 // kinds that perform a unibi bank operation (the only requests that reach Keeper.Bank.StateDB on the unchanged tree)
 var bankingKinds = []string{"call_bank", "est_bank", "trace_bank", "sim_evm", "sim_evm_bank", "sim_bank"}
-var plainKinds = []string{"call_xfer", "est_xfer", "call_bank_other", "call_s2b"}
+var plainKinds = []string{"call_xfer", "est_xfer", "call_bank_other", "call_s2b", "trace_call", "trace_block"}
 var readKinds = []string{"call_read", "grpc_bank", "grpc_evm_balance", "grpc_funtoken", "grpc_oracle"}
 
 func genQuery(r *Rng, kinds []string) c09Query {
 	q := c09Query{Kind: kinds[r.Intn(len(kinds))], To: r.Range(2, 3), Amt: int64(r.Range(1, 9)) * 1_000_000}
 	if r.Chance(1, 5) {
 		q.To = 0 // the contract being created by the in-flight tx
+	}
+	if strings.HasPrefix(q.Kind, "trace_") {
+		q.Bn = r.Pick(2, 3, 1) // last committed height, the height in progress, the one after
 	}
 	return q
 }
@@ -691,6 +722,14 @@ func openers() []c09Input {
 	}
 	for _, p := range []string{"pre", "post", "interblock"} {
 		out = append(out, mk("call_bank", p, 2), mk("sim_evm", p, 2))
+	}
+	// trace requests naming the height of the block in progress (their context keeps the header of the last committed one)
+	for _, k := range []string{"trace_call", "trace_block", "trace_bank"} {
+		for _, p := range []string{"pre", "post"} {
+			in := mk(k, p, 2)
+			in.Queries[0].Bn = 1
+			out = append(out, in)
+		}
 	}
 	// a transfer made by the tx before the yield is overwritten by the query's view
 	out = append(out, c09Input{Value: 30_000_000, Bal: [3]int64{50_000_000, 1_000_000, 0},
